@@ -92,10 +92,13 @@ impl<CharIter: Iterator<Item = char>> Lexer<CharIter> {
                 '#' => match self.advance(1) {
                     Some(cn) => match cn {
                         '(' => Ok(Some(TokenData::VecConsIntro)),
-                        't' => Ok(Some(TokenData::Primitive(Primitive::Boolean(true)))),
-                        'f' => Ok(Some(TokenData::Primitive(Primitive::Boolean(false)))),
+                        't' | 'f' => {
+                            let value = *cn == 't';
+                            self.end_of_sharp_token()?;
+                            Ok(Some(TokenData::Primitive(Primitive::Boolean(value))))
+                        }
                         '\\' => match self.advance(1).take() {
-                            Some(cnn) => Ok(Some(TokenData::Primitive(Primitive::Character(cnn)))),
+                            Some(cnn) => self.character(cnn),
                             None => {
                                 located_error!(SyntaxError::UnexpectedEnd, Some(self.location))
                             }
@@ -178,6 +181,23 @@ impl<CharIter: Iterator<Item = char>> Lexer<CharIter> {
         }
     }
 
+    // the token just read must be followed by a delimiter or the end of input
+    fn end_of_token(&mut self) -> Result<()> {
+        let location = self.location;
+        match self.peekable_char_stream.peek() {
+            Some(c) => Self::test_delimiter(Some(location), *c),
+            None => Ok(()),
+        }
+    }
+
+    // a boolean or character may also be followed directly by another '#' token
+    fn end_of_sharp_token(&mut self) -> Result<()> {
+        match self.peekable_char_stream.peek() {
+            Some('#') => Ok(()),
+            _ => self.end_of_token(),
+        }
+    }
+
     fn atmosphere(&mut self) -> Result<Option<TokenData>> {
         while let Some(c) = self.peekable_char_stream.peek() {
             match c {
@@ -200,6 +220,42 @@ impl<CharIter: Iterator<Item = char>> Lexer<CharIter> {
             }
         }
         self.try_next()
+    }
+
+    // #\<any character> or #\<character name>, up to a delimiter
+    fn character(&mut self, first: char) -> Result<Option<TokenData>> {
+        let mut name = String::new();
+        name.push(first);
+        while let Some(nc) = self.peekable_char_stream.peek() {
+            if !nc.is_ascii_alphanumeric() {
+                break;
+            }
+            name.push(*nc);
+            self.advance(1);
+        }
+        self.end_of_sharp_token()?;
+        let c = match name.as_str() {
+            _ if name.chars().count() == 1 => first,
+            "alarm" => '\u{7}',
+            "backspace" => '\u{8}',
+            "delete" => '\u{7f}',
+            "escape" => '\u{1b}',
+            "newline" => '\n',
+            "null" => '\0',
+            "return" => '\r',
+            "space" => ' ',
+            "tab" => '\t',
+            hex if hex.starts_with('x') => {
+                match u32::from_str_radix(&hex[1..], 16).ok().and_then(char::from_u32) {
+                    Some(c) => c,
+                    None => {
+                        return located_error!(SyntaxError::UnrecognizedToken, Some(self.location))
+                    }
+                }
+            }
+            _ => return located_error!(SyntaxError::UnrecognizedToken, Some(self.location)),
+        };
+        Ok(Some(TokenData::Primitive(Primitive::Character(c))))
     }
 
     fn normal_identifier(&mut self) -> Result<Option<TokenData>> {
@@ -406,11 +462,17 @@ impl<CharIter: Iterator<Item = char>> Lexer<CharIter> {
         self.advance(1);
         match self.peekable_char_stream.peek() {
             Some(nc) => match nc {
-                'e' => self.number_suffix(number_literal),
+                'e' => {
+                    self.number_suffix(number_literal)?;
+                    self.end_of_token()
+                }
                 '0'..='9' => {
                     self.digital10(number_literal)?;
                     match self.peekable_char_stream.peek() {
-                        Some('e') => self.number_suffix(number_literal),
+                        Some('e') => {
+                            self.number_suffix(number_literal)?;
+                            self.end_of_token()
+                        }
                         Some(nnc) => Self::test_delimiter(Some(self.location), *nnc),
                         None => Ok(()),
                     }
@@ -436,6 +498,7 @@ impl<CharIter: Iterator<Item = char>> Lexer<CharIter> {
                             '0'..='9' => self.digital10(&mut number_literal)?,
                             'e' => {
                                 self.number_suffix(&mut number_literal)?;
+                                self.end_of_token()?;
                                 break self.real_token(number_literal);
                             }
                             '.' => {
@@ -446,6 +509,7 @@ impl<CharIter: Iterator<Item = char>> Lexer<CharIter> {
                                 let mut denominator = String::new();
                                 self.advance(1);
                                 self.digital10(&mut denominator)?;
+                                self.end_of_token()?;
                                 break match (
                                     number_literal.parse::<i32>(),
                                     denominator.parse::<u32>(),
